@@ -134,7 +134,7 @@ def file_path(modpath):
     return modpath.replace(".", "/") + ".cb"
 
 
-DIRS = ["", "pk", "pk.sub", "lib", "lib.x.y", "d1", "d1.d2", "zz.cx"]
+DIRS = ["", "pk", "pk.sub", "lib", "lib.x.y", "d1", "d1.d2", "zz.cx", "cbx", "lib.cbits"]
 
 
 BLIND = "tests/cases/import_export/"       # a location only the RUN-TIME loader searches (not the parse-time path)
@@ -154,7 +154,7 @@ def gen_modules(rng, n, edges, defects=(), prefix=""):
             stmts.append(stmts[0])                                    # a module importing twice
         pool_val, pool_fun, pool_str = [], [], []
         for j in range(i):
-            if (i, j) in edges and "open_closure" not in defects:   # (#35: such references would fail at run time)
+            if (i, j) in edges:
                 pool_val += exported[j]["val"]
                 pool_fun += exported[j]["fun"]
                 if not prefix:          # (run-time-only placement: the module's own parser cannot see imported types)
@@ -209,8 +209,8 @@ def gen_modules(rng, n, edges, defects=(), prefix=""):
             elif kd == "S":
                 sn, inn, mn = "S%d_%d" % (i, j), "I%d_%d" % (i, j), "m%d_%d" % (i, j)
                 mems = [("x", None), ("y", None)]
-                if "array" in defects and e:
-                    mems.append(("v", 3))
+                if rng.random() < 0.35:
+                    mems.append(("v", rng.randint(2, 4)))          # array member (871ed77)
                 stmts.append(("S", e, sn, False, mems))
                 if e:
                     own_str.append(sn)
@@ -220,7 +220,7 @@ def gen_modules(rng, n, edges, defects=(), prefix=""):
                     impl_e = False
                 if rng.random() < 0.8:
                     stmts.append(("N", ie, inn, [mn]))
-                    statics = ["sv%d_%d" % (i, j)] if ("statics" in defects and e) else []
+                    statics = ["sv%d_%d" % (i, j)] if rng.random() < 0.35 else []     # impl static (a650333)
                     # method refs: self.x * d + refs (refs use `a`: not available) -> only value refs
                     mrefs = [r for r in refs(1) if "(a)" not in r] if e else []
                     stmts.append(("M", impl_e, inn, sn, [(mn, ident + 5, mrefs)], [], None, statics))
@@ -381,6 +381,10 @@ def build_main(tab, single_seg_mods, reimport=None, blind=False, fparams=None):
         lines.append('println("@x", %s.x);' % v)
         if first is None:
             first = "@x 7"
+        for mn_, ext in mems:
+            if ext != "-":
+                lines.append('%s.%s[%d] = 9; %s.%s[0] = 4; println("@a", %s.%s[%d] + %s.%s[0]);'
+                             % (v, mn_, int(ext) - 1, v, mn_, v, mn_, int(ext) - 1, v, mn_))
         for (i, s, ms) in tab["IM"]:
             if s != k:
                 continue
@@ -528,16 +532,16 @@ def make_graph_case(seed, tag, k, n, edges, defects=(), prefix=""):
     rng = rng_for(seed, "c18-graph", tag, k)
     mods = gen_modules(rng, n, edges, defects, prefix)
     roots = [i for i in range(n) if rng.random() < 0.7] or [n - 1]
-    if "open_closure" in defects:
-        imports_idx = roots                                   # a module's own imports are NOT added
+    if rng.random() < 0.6:
+        imports_idx = roots                                   # the modules' own imports are loaded with them (7f2ae2b)
     else:
-        imports_idx = closure(mods, roots)
+        imports_idx = closure(mods, roots)                    # ... or also imported by the program (double paths)
     base = list(imports_idx)
     rng.shuffle(base)
     local = []
     # a local function of the importer that calls an imported exported function / reads a constant
-    vis_f = [s[2] for i in imports_idx for s in mods[i]["stmts"] if s[0] == "F" and s[1] and len(s) <= 5]
-    vis_v = [s[2] for i in imports_idx for s in mods[i]["stmts"] if s[0] == "V" and s[1] and s[4] is not None]
+    vis_f = [s[2] for i in closure(mods, imports_idx) for s in mods[i]["stmts"] if s[0] == "F" and s[1] and len(s) <= 5]
+    vis_v = [s[2] for i in closure(mods, imports_idx) for s in mods[i]["stmts"] if s[0] == "V" and s[1] and s[4] is not None]
     if vis_f or vis_v:
         refs = ([rng.choice(vis_f) + "(a)"] if vis_f else []) + ([rng.choice(vis_v)] if vis_v else [])
         local.append(("F", False, "lf_main", 990, refs))
@@ -596,6 +600,8 @@ def run_graph_case(impl, case, tab, tier, seed, oracle=True):
     tree = Tree(files)
     runs = 0
     try:
+        if not tab["ok"] and tab["err"][0] == "depth":
+            raise RuntimeError("model recursion bound exhausted: " + " ".join(tab["err"]))
         if not tab["ok"]:
             rc, o, e = tree.run(impl, program_text(case["base"], modpaths, case["local"], "void main() { println(1); }\n"))
             runs += 1
@@ -627,8 +633,18 @@ def run_graph_case(impl, case, tab, tier, seed, oracle=True):
         name0, imps0, rc0, o0, e0 = outs[0]
         # A. table agreement on the base variant
         if rc0 != 0:
-            fails.append(("corr-run", {"imports": [modpaths[i] for i in imps0], "rc": rc0, "stderr": e0[-600:], "stdout": o0[-600:]},
-                          "program using exactly the names the model says are bound fails: rc=%d %s" % (rc0, first_err(e0)), False))
+            # evaluate the property's own oracle on this input: does the inlined single file run?
+            order0 = closure(mods, sorted(set(imps0)))
+            rci, oi, ei = tree.run(impl, inlined_text(case, order0, main_inl))
+            runs += 1
+            if rci == 0 and oracle:
+                fails.append(("oracle-inlined", {"imports": [modpaths[i] for i in imps0], "rc_import": rc0, "rc_inlined": rci,
+                                                 "stderr_import": e0[-600:], "stdout_import": o0[-300:]},
+                              "importing program fails (rc=%d %s) while the single-file inlined program runs" % (rc0, first_err(e0)), True))
+            else:
+                fails.append(("corr-run", {"imports": [modpaths[i] for i in imps0], "rc": rc0, "stderr": e0[-600:], "stdout": o0[-600:],
+                                           "rc_inlined": rci},
+                              "program using exactly the names the model says are bound fails: rc=%d %s" % (rc0, first_err(e0)), False))
         else:
             bad = check_expectations(o0, exp)
             for idx, what, want, got in bad[:3]:
@@ -811,6 +827,22 @@ def case_replay_flat(case):
 
 
 # ------------------------------------------------------------------ known findings
+def run_program_case(impl, c):
+    """corpus entry {"kind": "program", "id", "files": {path: text}, "program", "expected_stdout", "expected_rc"}: a former
+    refutation witness; the property demands exactly this output"""
+    tree = Tree(list(c["files"].items()), c.get("cwd", ""))
+    try:
+        rc, o, e = tree.run(impl, c["program"])
+        fails = []
+        if rc != c.get("expected_rc", 0) or o != c["expected_stdout"]:
+            fails.append(("corpus-" + c["id"], {"case": c, "rc": rc, "stdout": o[-400:], "stderr": e[-400:]},
+                          "%s: demanded %r (rc %d), implementation gives %r (rc %d) %s" % (
+                              c["id"], c["expected_stdout"], c.get("expected_rc", 0), o[-80:], rc, first_err(e)), True))
+        return {"runs": 1, "failures": fails, "bindings": 0, "negatives": 0, "variants": 1}
+    finally:
+        tree.close()
+
+
 def replay_finding(impl, f):
     """returns (still_fails, detail)"""
     r = f["replay"]
@@ -850,8 +882,7 @@ def build_cases(seed, tier):
         rng = rng_for(seed, "c18-defect", k)
         n = rng.randint(2, 3 if tier == "quick" else 4)
         edges = set((i, j) for i in range(n) for j in range(i) if rng.random() < 0.6)
-        d = rng.choice([("hidden_impl",), ("open_closure",), ("hidden_impl", "open_closure")])
-        c = make_graph_case(seed, "defect", k, n, edges, d)
+        c = make_graph_case(seed, "defect", k, n, edges, ("hidden_impl",))
         c["oracle"] = False
         cases.append(c)
     # (3) search path: which of the 8 candidate files is opened
@@ -889,19 +920,9 @@ def avoided_shapes(case):
     mods = case["mods"]
     exported_structs = set(s[2] for m in mods for s in m["stmts"] if s[0] == "S" and s[1])
     for m in mods:
-        if ".cb" in m["modpath"]:
-            trips.append("C18-dotcb-component")
         for s in m["stmts"]:
-            if s[0] == "S" and s[1] and any(x is not None for _, x in s[4]):
-                trips.append("C18-struct-array-member")
             if s[0] == "M" and not s[1] and s[3] in exported_structs:
                 trips.append("C18-hidden-impl-visible")
-            if s[0] == "M" and s[7]:
-                trips.append("C18-impl-static-not-imported")
-    imported = set(case["base"])
-    for i in imported:
-        if any(j not in imported for j in mods[i]["imports"]):
-            trips.append("C18-transitive-import")
     return sorted(set(trips))
 
 
@@ -923,8 +944,7 @@ def run(rep):
 
     cases = []
     corpus = os.path.join(common.VERIF, "corpus", "c18.json")
-    if os.path.exists(corpus):
-        cases += json.load(open(corpus))
+    programs = json.load(open(corpus)) if os.path.exists(corpus) else []
     cases += build_cases(seed, tier)
     for c in cases:
         if c["kind"] == "graph" and c.get("oracle", True):
@@ -940,6 +960,7 @@ def run(rep):
             return run_graph_case(impl, c, tab, tier, seed, oracle=c.get("oracle", True))
         return run_flat_case(impl, c, tab)
     results = common.pmap(one, list(zip(cases, tabs)))
+    prog_results = [run_program_case(impl, c) for c in programs]
 
     hist, runs, bindings, negs, variants = {}, 0, 0, 0, 0
     distinct, nontrivial = set(), 0
@@ -957,6 +978,11 @@ def run(rep):
             # non-trivial: the model binds at least one imported name or predicts an error
             if (not tab["ok"]) or any(k not in ("main", "lf_main") for k in tab["F"]) or tab["S"] or tab["E"] or tab["V"]:
                 nontrivial += 1
+        allfails += [(c, f) for f in r["failures"]]
+    for c, r in zip(programs, prog_results):
+        hist["corpus"] = hist.get("corpus", 0) + 1
+        runs += r["runs"]
+        variants += r["variants"]
         allfails += [(c, f) for f in r["failures"]]
     sample_case = next(c for c in cases if c["kind"] == "graph" and c["n"] >= 2 and c["edges"])
     rep.coverage.update({
@@ -1011,6 +1037,11 @@ def run(rep):
 def replay(path):
     data = json.load(open(path))
     c = data["case"].get("case")
+    if c and c.get("kind") == "program":
+        r = run_program_case(common.build_impl("plain"), c)
+        for f in r["failures"]:
+            print("FAIL", f[0], f[2])
+        return 1 if r["failures"] else 0
     if not c:
         print(json.dumps(data["case"], indent=1)[:3000])
         return 1
